@@ -71,6 +71,21 @@ func runC05(p *Program, r *Report) {
 	rd1Scan(p, r, "C05.fullread")
 	checkLoadPassThrough(p, r)
 	r.Floor("C05.load", 3)
+	// a header parser that reads more than the format's header rejects the smallest well-formed
+	// files (a lossless WebP header is 5 bytes, not 10): the C18 end-position rule for WebP,
+	// re-evaluated here as a premise
+	{
+		sub := NewReport("C18", "other")
+		checkStopWebp(p, sub)
+		for _, ob := range sub.Obls {
+			if ob.Rule != "C18.E4" {
+				continue
+			}
+			ob.Rule = "C05.premise-" + ob.Rule
+			ob.Key = "C05.premise-" + ob.Key
+			r.Obls = append(r.Obls, ob)
+		}
+	}
 	r.Floor("C05.fullread", 1)
 	r.Floor("C05.fields", 15)
 	r.Floor("C05.guards", 6)
